@@ -711,6 +711,27 @@ def m_as_ref(it, S, t, callee, args):
     return ("upd", R, (((("dc", 1, "Some"), ("f", 0, "0")), ("ref", (loc[0], loc[1] + (("dc", 1, "Some"), ("f", 0, "0"))))),))
 
 
+@model("core::option::Option::ok_or")
+def m_ok_or(it, S, t, callee, args):
+    # Some(v) -> Ok(v), None -> Err(e) (std documentation)
+    v = args[0]
+    R = ("call", it.site(), callee.get("path"))
+    set_ty(R, tykey(Place(t["dest"]).ty))
+    dv, dr = ("discr", v), ("discr", R)
+    if isinstance(v, tuple) and v[0] == "agg" and v[2] is not None:
+        S.set_dom(dr, Dom(0, 0) if v[2] == 1 else Dom(1, 1))
+    else:
+        if sv_type(v) is None:
+            set_ty(v, tykey(it.op_type(t["args"][0])))
+        it.cond[(dr, 0)] = [("dom", dv, Dom(1, 1))]
+        it.cond[(dr, 1)] = [("dom", dv, Dom(0, 0))]
+        d = S.dom(dv)
+        if d.lo == d.hi:
+            S.set_dom(dr, Dom(1 - d.lo, 1 - d.lo))
+    return ("upd", R, (((("dc", 0, "Ok"), ("f", 0, "0")), project(v, (("dc", 1, "Some"), ("f", 0, "0")))),
+                       ((("dc", 1, "Err"), ("f", 0, "0")), args[1])))
+
+
 # ----------------------------------------------------------------------------- equality
 def m_eq_generic(it, S, t, callee, args):
     name = norm_name(callee.get("pretty"))
@@ -800,6 +821,29 @@ def m_vec_into_iter(it, S, t, callee, args):
     R = ("call", it.site(), callee.get("path"))
     set_ty(R, tykey(Place(t["dest"]).ty))
     return it.with_len(R, ln)
+
+
+@model("core::slice::<impl [T]>::chunks")
+def m_chunks(it, S, t, callee, args):
+    # <[T]>::chunks(n) panics if n == 0; yields ceil(len / n) non-empty sub-slices of at most n items, in order (std docs)
+    n = args[1]
+    sl = it.deref_value(S, args[0], 1, it.op_type(t["args"][0]))
+    ln = it.len_of_value(S, sl, None)
+    if sv_type(n) is None:
+        set_ty(n, "usize")
+    proved = S.prove_le(U(1), n, 0)
+    it.oblige("precond:chunks", "chunks|size=%s" % stable(n), proved, t["span"], "chunk size %s" % it.describe(S, n), callee="<[T]>::chunks")
+    S.add_le(U(1), n, 0)
+    cnt = ("model", "chunk-count", ln, n)
+    set_ty(cnt, "usize")
+    S.add_le(cnt, ln, 0)          # ceil(len / n) <= len for n >= 1
+    if S.prove_le(U(1), ln, 0):
+        S.add_le(U(1), cnt, 0)
+    elif S.prove_le(ln, U(0), 0):
+        S.add_le(cnt, U(0), 0)
+    R = ("model", "chunks", sl, n)
+    set_ty(R, tykey(Place(t["dest"]).ty))
+    return it.with_len(R, cnt)
 
 
 @model("core::iter::traits::iterator::Iterator::collect")
